@@ -38,7 +38,6 @@ m = {
     'checks': checks,
     'notes': T.NOTES,
 }
-if na:
-    m['not_applicable'] = na
+m['not_applicable'] = na        # every property is claimed: the list is empty
 json.dump(m, open(os.path.join(VERIF, 'MANIFEST.json'), 'w'), indent=1)
 print('checks:', [c['property_id'] for c in checks], 'not_applicable:', [n['property_id'] for n in na])
